@@ -46,7 +46,11 @@ func (tfg *TaskfileGraph) Visualize(filename string) error {
 }
 
 func (tfg *TaskfileGraph) Merge() (*Taskfile, error) {
-	hashes, err := graph.TopologicalSort(tfg.Graph)
+	// NOTE: The sort must be stable so that Taskfiles included at the same
+	// level are always merged in the same order.
+	hashes, err := graph.StableTopologicalSort(tfg.Graph, func(a, b string) bool {
+		return a < b
+	})
 	if err != nil {
 		return nil, err
 	}
